@@ -139,6 +139,23 @@ F('vx_rep_shift', r'constexpr\s+slice\s+rep\(slice s,\s*size32_t n\)', 'void vx_
   rules=[RangeFor([(r'st\.transitions', '256', 'st->transitions[{i}]', 'size16_t', True)])])
 
 
+def rep_zero_fragment(body):
+    """the `if (n == 0) { ... }` block of dfa_builder::rep: X{0} keeps the slice's states but cuts them off"""
+    import re as _re
+    m = _re.search(r'if \(n == 0\)\s*\{', body)
+    if not m:
+        raise Exception('dfa_builder::rep: the n == 0 branch was not found')
+    i, depth = m.end(), 1
+    while depth:
+        c = body[i]; depth += (c == '{') - (c == '}'); i += 1
+    return body[m.end() - 1:i]
+
+
+F('vx_rep_zero', r'constexpr\s+slice\s+rep\(slice s,\s*size32_t n\)', 'void vx_rep_zero(struct utils__slice s)', scope=DB, fragment=rep_zero_fragment,
+  rules=[RangeFor([(r'sm\[j\]\.transitions', '256', 'b_sm.the_data[vx_idx(j, b_sm.current_size)].transitions[{i}]', 'size16_t', True)], min=1),
+         S(r'return s;', 'return;', name='R2:the slice is returned unchanged (db_rep contract)')] + DBR)
+
+
 def merge_rec_fragment(body):
     import re as _re
     ms = _re.findall(r'(?<![\w.])merge\(tr_to,\s*tr_from,\s*([^,()]+),\s*([^,()]+)\);', body)
